@@ -415,3 +415,32 @@ def text_graph_diff(g1, g2):
         if a['attrs'] != b['attrs']:
             return f'element {i}: attributes differ'
     return None
+
+
+def spec_heap(spec):
+    """The spec as a heap graph (JSON `G`, elements in spec order, references = spec positions):
+    no traversal involved. Dict semantics of an Element (casefolded keys, 'name' first) applied."""
+    out = []
+    for e in spec['elems']:
+        seen = {'name': {'name': 'name', 't': 'STRING', 'arr': False, 'vals': [e['name']]}}
+        for a in e['attrs']:
+            seen[a['name'].casefold()] = a
+        attrs = []
+        for k, a in seen.items():
+            if a['name'] == 'name':
+                continue
+            vals = []
+            t = a['t']
+            for v in a['vals']:
+                if t == 'ELEMENT':
+                    if v[0] == 'n': vals.append(['n'])
+                    elif v[0] == 's': vals.append(['s', list(str(uuidmod.UUID(v[1])).encode('ascii'))])
+                    else: vals.append(['i', v[1]])
+                elif t == 'STRING': vals.append(['t', list(v.encode('utf8'))])
+                elif t == 'BINARY': vals.append(['b', list(v)])
+                elif t in ('INTEGER', 'FLOAT', 'BOOL', 'TIME'): vals.append(['f', [int(v)]])
+                else: vals.append(['f', [int(x) for x in v]])
+            attrs.append({'name': list(a['name'].encode('utf8')), 't': VT_NUM[t], 'arr': a['arr'], 'vals': vals})
+        out.append({'type': list(e['type'].encode('utf8')), 'name': list(seen['name']['vals'][0].encode('utf8')),
+                    'uuid': list(uuidmod.UUID(e['uuid']).bytes_le), 'attrs': attrs})
+    return {'elems': out}
